@@ -131,8 +131,8 @@ func canonModelPairs(ps []interface{}) []interface{} {
 // c19Correspond compares outcome class and decoded value with the Lean model
 func c19Correspond(r *Run, kind string, text []byte, out string, val interface{}, cs map[string]interface{}) {
 	var mo struct {
-		Class string      `json:"class"`
-		Val   interface{} `json:"val"`
+		Class string `json:"class"`
+		Val   Exact  `json:"val"`
 	}
 	if err := r.Mdl.Call(map[string]interface{}{"fn": "decodeWire", "kind": kind, "json": json.RawMessage(text)}, &mo); err != nil {
 		r.Violation("decode-model", cs, out, err.Error(), false, "model driver failed", "")
@@ -154,15 +154,15 @@ func c19Correspond(r *Run, kind string, text []byte, out string, val interface{}
 	var iv, mv interface{}
 	switch kind {
 	case "value":
-		iv, mv = goValJ(val.(valueHolder).V), canonModelVal(mo.Val)
+		iv, mv = goValJ(val.(valueHolder).V), canonModelVal(mo.Val.V)
 	case "uuid":
-		iv, mv = val.(ovsdb.UUID).GoUUID, mo.Val
+		iv, mv = val.(ovsdb.UUID).GoUUID, mo.Val.V
 	case "set":
 		iv = goValJ(val.(ovsdb.OvsSet)).(map[string]interface{})["set"]
-		mv = canonModelVal(map[string]interface{}{"set": mo.Val}).(map[string]interface{})["set"]
+		mv = canonModelVal(map[string]interface{}{"set": mo.Val.V}).(map[string]interface{})["set"]
 	case "map":
 		iv = goValJ(val.(ovsdb.OvsMap)).(map[string]interface{})["map"]
-		ps, _ := mo.Val.([]interface{})
+		ps, _ := mo.Val.V.([]interface{})
 		mv = canonModelPairs(ps)
 	case "row":
 		o := map[string]interface{}{}
@@ -171,7 +171,7 @@ func c19Correspond(r *Run, kind string, text []byte, out string, val interface{}
 		}
 		iv = o
 		mm := map[string]interface{}{}
-		if m, ok := mo.Val.(map[string]interface{}); ok {
+		if m, ok := mo.Val.V.(map[string]interface{}); ok {
 			for k, e := range m {
 				mm[k] = canonModelVal(e)
 			}
@@ -180,12 +180,12 @@ func c19Correspond(r *Run, kind string, text []byte, out string, val interface{}
 	case "condition":
 		c := val.(ovsdb.Condition)
 		iv = []interface{}{c.Column, string(c.Function), goValJ(c.Value)}
-		t := mo.Val.([]interface{})
+		t := mo.Val.V.([]interface{})
 		mv = []interface{}{t[0], t[1], canonModelVal(t[2])}
 	case "mutation":
 		c := val.(ovsdb.Mutation)
 		iv = []interface{}{c.Column, string(c.Mutator), goValJ(c.Value)}
-		t := mo.Val.([]interface{})
+		t := mo.Val.V.([]interface{})
 		mv = []interface{}{t[0], t[1], canonModelVal(t[2])}
 	}
 	a, _ := json.Marshal(iv)
